@@ -47,6 +47,21 @@ def run_case(rs, ctx):
     ops = gen.gen_ops(rs, cfg, sh, 1, ["fit"], train_rows=(4, 20), rkind=rk) + \
         gen.gen_ops(rs, cfg, sh, int(rs.integers(3, 12)), KINDS, sizes=(1, 2, 3, 5, 8), train_rows=(1, 8), rkind=rk) + \
         gen.gen_ops(rs, cfg, sh, 1, ["predict"])
+    if p == "none" and l in ("eg", "ucb", "sm", "pop", "lingreedy", "linucb") and len(cfg["arms"]) >= 3 and rs.integers(2):
+        # the arg-max changes through warm_start: a cold arm (neutral 0, the maximum while every trained arm is negative)
+        # receives a trained arm's state after the live bandit has already answered a query
+        cold = cfg["arms"][int(rs.integers(len(cfg["arms"])))]
+        trained = [a for a in cfg["arms"] if a != cold]
+        f0 = ops[0]
+        f0["d"] = [a if a != cold else gen.pick(rs, trained) for a in f0["d"]]
+        if l != "pop":
+            f0["r"] = [-abs(v) - 0.125 for v in f0["r"]]
+        sh2 = gen.Shadow(cfg, nf)
+        sh2.fitted = True
+        q1 = gen.gen_ops(rs, cfg, sh2, 1, ["predict"])
+        q1[0]["live"] = True
+        ws = gen.gen_warm(rs, cfg["arms"], q=1.0)
+        ops = [f0] + q1 + [ws] + gen.gen_ops(rs, cfg, sh2, 2, ["predict"]) + [o for o in ops[1:] if o["op"] in ("partial_fit", "predict", "warm_start")]
     m = gen.build(cfg)
     skeleton = "".join(o["op"][0] for o in ops)
     probs = cfg["np"].get("probs")
@@ -65,11 +80,11 @@ def run_case(rs, ctx):
             X[int(rs.integers(len(X)))] = [50.0 + float(v) for v in X[0]]  # far away: empty radius neighbourhood
             wit["ops"][-1] = dict(op, X=X)
         a, b = copy.deepcopy(m), copy.deepcopy(m)
-        if rs.integers(2):
+        if op.get("live") or rs.integers(2):
             # the live bandit answers the query as well (its streams advance): whatever a real query leaves behind
             # (caches, tables) is then part of the state the next twin check starts from
             try:
-                if rs.integers(2):
+                if op.get("live") or rs.integers(2):
                     m.predict(np.asarray(X, dtype=float)) if X is not None else m.predict()
                 else:
                     m.predict_expectations(np.asarray(X, dtype=float)) if X is not None else m.predict_expectations()
